@@ -137,15 +137,18 @@ def run(ctx: Context) -> None:
         ctx.check('R11.1', any(all(isinstance(s, ast.Return) and is_none(s.value) for s in h.body) for h in handlers),
                   "no mesh variable means no match (not an exception)", ug, ug.node, construct='except ValueError: return None')
         ss = ctx.func('emsarray.conventions.shoc.ShocSimple.check_dataset')
+        from .common import facts as _facts11
         for r, tests in tests_text(ss):
-            t1 = any(pol == 'unless' and "'ems_version' not in" in t and '.attrs' in t for pol, t in tests)
-            t2 = any(pol == 'unless' and 'issuperset(cls._dimensions)' in t and t.startswith('not ') for pol, t in tests)
+            known = _facts11(ctx, ss, r)
+            t1 = any(pol and "'ems_version' in " in t and '.attrs' in t for t, pol in known)
+            t2 = any(pol and 'issuperset(cls._dimensions)' in t for t, pol in known)
             ctx.check('R11.1', t1 and t2, "SHOC simple matches only with the ems_version attribute and its (j, i) dimensions", ss, r,
-                      construct=f"tests before `{norm_text(r)}`: {[t for _, t in tests]}")
+                      construct=f"known at `{norm_text(r)}`: {sorted(t for t, pol in known if pol)}"[:300])
         ak = ctx.func('emsarray.conventions.arakawa_c.ArakawaC.check_dataset')
         for r, tests in tests_text(ak):
-            t1 = any(pol == 'if' and t.startswith('all(') and 'in dataset.variables' in t and 'coordinate_names' in t for pol, t in tests)
-            t0 = any(pol == 'unless' and "not hasattr(cls, 'coordinate_names')" in t for pol, t in tests)
+            known = _facts11(ctx, ak, r)
+            t1 = any(pol and t.startswith('all(') and 'in dataset.variables' in t and 'coordinate_names' in t for t, pol in known)
+            t0 = any(pol and t == "hasattr(cls, 'coordinate_names')" for t, pol in known)
             ctx.check('R11.1', t1 and t0, "Arakawa C conventions match only when all their coordinate variables are present", ak, r,
                       construct=f"tests before `{norm_text(r)}`: {[t for _, t in tests]}")
         from .common import facts as _facts
